@@ -211,7 +211,7 @@ def run_shard(spec, workdir):
             V("combination-fails", f"building a combination with a local array raised {type(e).__name__}: {str(e)[:700]}",
               {"how": "build", "exc": type(e).__name__, "name_collision": collides()}, {"how": "build"})
         shutil.rmtree(wd, ignore_errors=True)
-        if j < 1 and spec.get("shard", 0) == 0:
+        if not res["samples"] and spec.get("shard", 0) == 0:
             res["samples"].append({"recipe": recipe, "receiver_counter": k, "child_max_counter": child_max})
     return res
 
